@@ -30,12 +30,12 @@ func (r *RequireModule) resolve(modpath string) (module *js.Object, err error) {
 
 	p := r.resolvePath(start, modpath)
 	if isFileOrDirectoryPath(modpath) {
-		if module = r.modules[p]; module != nil {
+		if module = r.resolved[p]; module != nil {
 			return
 		}
 		module, err = r.loadAsFileOrDirectory(p)
 		if err == nil && module != nil {
-			r.modules[p] = module
+			r.resolved[p] = module
 		}
 	} else {
 		module, err = r.loadNative(modpath)
@@ -230,6 +230,11 @@ func (r *RequireModule) loadModule(path string) (*js.Object, error) {
 			for k, m := range r.nodeModules {
 				if m == module {
 					delete(r.nodeModules, k)
+				}
+			}
+			for k, m := range r.resolved {
+				if m == module {
+					delete(r.resolved, k)
 				}
 			}
 			module = nil
